@@ -38,3 +38,28 @@ package client
 //@ lemma rttLess_transitive: forall aok, bok, cok bool, a, b, c int64 :: (rttLess(aok, a, bok, b) && rttLess(bok, b, cok, c)) ==> rttLess(aok, a, cok, c)
 //@ lemma rttLess_incomparability_transitive: forall aok, bok, cok bool, a, b, c int64 :: (!rttLess(aok, a, bok, b) && !rttLess(bok, b, aok, a) && !rttLess(bok, b, cok, c) && !rttLess(cok, c, bok, b)) ==> (!rttLess(aok, a, cok, c) && !rttLess(cok, c, aok, a))
 //@ lemma rttLess_measured_first: forall a, b int64 :: rttLess(true, a, false, b) && !rttLess(false, b, true, a)
+
+// ---- C45: saving the configuration. Crash obligation at the first file-system step: the file that holds
+// the previous configuration (certificate, private key, tunnels) must not be emptied before the new
+// contents are safely on disk, i.e. it is never opened with O_TRUNC (0x200) in place.
+//@ func (c *Config) writeFile() (err error)
+//@   arith bv
+//@   safety off
+//@   opt frame=off
+//@   requires c != nil
+//@   ghost truncated bool = false
+//@   at call OpenFile#*: ghost truncated := truncated || (callarg0 == c.path && (callarg1 & 512) != 0)
+//@   ensures local-the-live-file-is-never-truncated-in-place: !truncated
+//@   ghost opened bool = false
+//@   ghost eerr error = nil
+//@   ghost encoded bool = false
+//@   at after call OpenFile#1: ghost opened := callresult1 == nil
+//@   at call NewEncoder#1: assert the-configuration-is-encoded-into-the-opened-file: opened && callarg0 == f
+//@   at call Encode#1: assert encodes-this-configuration: callarg1 == c
+//@   at after call Encode#1: ghost eerr := callresult
+//@   at after call Encode#1: ghost encoded := true
+//@   ensures local-an-encoding-failure-is-reported: opened ==> (encoded && err == eerr)
+//@   ensures local-an-open-failure-is-reported: !opened ==> err != nil
+//@   ghost emptied bool = false
+//@   at call OpenFile#1: ghost emptied := (callarg1 & 512) != 0
+//@   ensures local-no-stale-bytes-survive-a-save: opened ==> emptied
